@@ -23,14 +23,15 @@
 //       executable): stdin "<hex type char>\t<hex text>" (type L = config)  ->  "PPFAIL <diags>" | "PARSEFAIL <diags pp> <diags parse>" |
 //       "OK <diags pp> <diags parse> <hex preprocessed text>"      diags = level:code,... or -
 //
-//   h_api ops      prints the nular / unary signatures of the operator registry (C20: which operators hand out containers)
+//   h_api ops [full|basic|empty]   prints the nular / unary / binary signatures of the operator registry of such an instance (C20: which operators hand out containers)
 //
 //   h_api reent    C20 re-entrancy: stdin "<hex P>\t<hex Q>\t<k>"; instance A runs P, and inside A's log callback, at the k-th
 //                  diagnostic A emits while running, instance B (created before) runs Q - all on one thread.
 //                  stdout: "<record of A>\t<record of B or ->\t<1 if B ran inside the callback else 0>"   (records as in iso)
 //
 //   h_api iso
-//       C20: several VMs in ONE process.  stdin: "<mode>\t<hex P>\t<hex Q>"   mode: alone | after | beside | twice
+//       C20: several VMs in ONE process.  stdin: "<mode>\t<hex P>\t<hex Q>[\t<set P>,<set Q>]"   mode: alone | after | beside | twice
+//         set: full | basic | empty = the operator set of that instance (sqfvm_create_instance / _basic / _empty)
 //         alone : P in a fresh VM                         after : Q in a VM, then P in a second, fresh VM (both stay alive)
 //         beside: P and Q on two threads, each in its own VM, started together     twice: P, then P again in another fresh VM
 //       stdout: the record of P's VM (of the last P for `twice`): result:state:<level:code[:M<text>],...>
@@ -140,6 +141,28 @@ template<class TVM> static std::string run_text(TVM& vm, const std::string& text
     return vm_record(vm, r);
 }
 
+// VM instances with the operator sets of the three constructors of the C API (src/export/sqfvm.cpp create_instance):
+// full = sqf::operators::ops, basic = the non-arma sets, empty = no operator at all
+static std::unique_ptr<VM> make_vm(const std::string& set)
+{
+    auto vm = std::make_unique<VM>(0, set == "full" || set.empty());
+    if (set == "basic")
+    {
+        sqf::operators::ops_config(*vm->rt);
+        sqf::operators::ops_diag(*vm->rt);
+        sqf::operators::ops_generic(*vm->rt);
+        sqf::operators::ops_logic(*vm->rt);
+        sqf::operators::ops_math(*vm->rt);
+        sqf::operators::ops_namespace(*vm->rt);
+        sqf::operators::ops_sqfvm(*vm->rt);
+        sqf::operators::ops_string(*vm->rt);
+        sqf::operators::ops_text(*vm->rt);
+        sqf::operators::ops_osspecific(*vm->rt);
+        sqf::operators::ops_hashmap(*vm->rt);
+    }
+    return vm;
+}
+
 // a VM assembled like vh::VM whose logger calls back into the harness on every message (re-entrancy search of C20)
 class HookLogger : public RecLogger
 {
@@ -199,7 +222,8 @@ int main(int argc, char** argv)
     if (mode == "ops")
     {
         // the registry of a full VM: "N\t<name>" for every nular, "U\t<name>\t<right type>" for every unary signature
-        VM vm(0, true);
+        auto pvm = make_vm(dir);        // argv[2]: full (default) | basic | empty
+        VM& vm = *pvm;
         for (auto it = vm.rt->sqfop_nular_begin(); it != vm.rt->sqfop_nular_end(); ++it)
             std::cout << "N\t" << it->first.name << "\n";
         for (auto it = vm.rt->sqfop_unary_begin(); it != vm.rt->sqfop_unary_end(); ++it)
@@ -329,22 +353,25 @@ int main(int argc, char** argv)
                 return vm_record(a, r) + "\t" + rb + "\t" + (nested ? "1" : "0");
             }, 60000, API_MEM_MB);
         }
-        else if (mode == "iso" && f.size() == 3)
+        else if (mode == "iso" && (f.size() == 3 || f.size() == 4))
         {
             out = forked([&]() -> std::string {
                 vh::g_clock_ns = 0; vh::g_clock_tick_ns = 1000;
                 std::string P = unhex(f[1]), Q = unhex(f[2]);
-                if (f[0] == "alone") { VM a(0, true); return run_text(a, P); }
-                if (f[0] == "twice") { VM a(0, true); run_text(a, P); VM b(0, true); return run_text(b, P); }
-                if (f[0] == "after") { VM q(0, true); run_text(q, Q); VM p(0, true); return run_text(p, P); }
+                // optional "<operator set of P's instance>,<operator set of Q's instance>"
+                std::string sp = "full", sq = "full";
+                if (f.size() == 4) { auto x = split(f[3], ','); if (x.size() == 2) { sp = x[0]; sq = x[1]; } }
+                if (f[0] == "alone") { auto a = make_vm(sp); return run_text(*a, P); }
+                if (f[0] == "twice") { auto a = make_vm(sp); run_text(*a, P); auto b = make_vm(sp); return run_text(*b, P); }
+                if (f[0] == "after") { auto q = make_vm(sq); run_text(*q, Q); auto p = make_vm(sp); return run_text(*p, P); }
                 if (f[0] == "beside")
                 {
                     // both VMs exist before either runs (creation itself registers types and operators in process-wide tables)
-                    VM p(0, true), q(0, true);
+                    auto p = make_vm(sp); auto q = make_vm(sq);
                     std::atomic<int> ready{ 0 };
                     std::string rp, rq;
-                    std::thread tq([&] { ready++; while (ready.load() < 2) {} rq = run_text(q, Q); });
-                    std::thread tp([&] { ready++; while (ready.load() < 2) {} rp = run_text(p, P); });
+                    std::thread tq([&] { ready++; while (ready.load() < 2) {} rq = run_text(*q, Q); });
+                    std::thread tp([&] { ready++; while (ready.load() < 2) {} rp = run_text(*p, P); });
                     tp.join(); tq.join();
                     return rp;
                 }
